@@ -4,6 +4,7 @@ import (
 	"fmt"
 	sdk "github.com/cosmos/cosmos-sdk/types"
 	sdkerrors "github.com/cosmos/cosmos-sdk/types/errors"
+	beaconexported "github.com/unification-com/mainchain/x/beacon/exported"
 	"github.com/unification-com/mainchain/x/wrkchain/exported"
 	"github.com/unification-com/mainchain/x/wrkchain/types"
 	"math"
@@ -50,6 +51,12 @@ func (wfd CorrectWrkChainFeeDecorator) AnteHandle(ctx sdk.Context, tx sdk.Tx, si
 	if !exported.CheckIsWrkChainTx(feeTx) {
 		// ignore and move on to the next decorator in the chain
 		return next(ctx, tx, simulate)
+	}
+
+	// WRKChain and BEACON messages cannot share a transaction: each module's decorator compares the
+	// whole fee with its own module's total, so a mixed transaction could only pass by under-paying
+	if beaconexported.CheckIsBeaconTx(feeTx) {
+		return ctx, sdkerrors.Wrap(sdkerrors.ErrInvalidRequest, "WRKChain and BEACON messages cannot be combined in one transaction")
 	}
 
 	// Check fees amount sent in Tx. Check during CheckTx. Since WrkChains have set fees that are not
